@@ -53,7 +53,7 @@ class Resolver:
         except pydantic.ValidationError as e:
             raise InputParsingException.from_pydantic_error(e, file=path)
         except yaml.MarkedYAMLError as e:
-            raise InputParsingException.from_yaml_error(e)
+            raise InputParsingException.from_yaml_error(e, file=path)
         except FileNotFoundError:
             raise FileNotFoundException(path)
 
